@@ -4,7 +4,7 @@
 cd "$(dirname "$0")/.."
 for d in seeded/*/; do
   id=$(basename $d | cut -d_ -f1)
-  r=$(./scripts/try_seed.sh $d/patch.diff $id quick 2>&1 | grep "^== ")
+  r=$(./scripts/try_seed.sh $d/patch.diff $id quick 2>&1 | grep "^== \|patch does not apply" | tail -1)
   exp=$(grep -q "NOT DETECTED" $d/meta.json && echo "(expected: not detected)" || echo "")
   echo "$(basename $d): $r $exp"
 done
